@@ -101,6 +101,15 @@ def opLine (h : Hist) (toks : List String) : Hist × String :=
       if !("srw".toList.contains hc) || !h.allocated id then bad else
       doOp h "d" (Op.del id (kindOfChar hc))
     | _, _ => bad
+  | ["o", idS, tgS] =>
+    match idS.toNat? with
+    | some id =>
+      if id ≥ 65536 || !(h.kindOf id == some 'b' || h.kindOf id == some 'B') then bad else
+      if tgS = "-" then doOp h "o" (Op.own id [])
+      else match tgS.toNat? with
+        | some tg => if tg < 65536 && h.allocated tg then doOp h "o" (Op.own id [tg]) else bad
+        | none => bad
+    | none => bad
   | "c" :: rest =>
     match parseIds rest with
     | some (marks, r) => match parseIds r with
